@@ -100,6 +100,7 @@ def _dynamic(node, patch_):
     mem = node.members[i]
     mem.bound = len_name
     mem.size = None
+    mem.greedy = False
     mem.optional = False
     return node
 
@@ -142,6 +143,7 @@ def _static(node, patch_):
     mem = node.members[i]
     mem.bound = None
     mem.size = size
+    mem.greedy = False
     mem.optional = False
     return node
 
@@ -163,7 +165,10 @@ def _limited(node, patch_):
         raise Exception("Array len member not found: %s %s" % (node.name, patch_))
 
     mem = node.members[i]
+    if not mem.size:
+        raise Exception("Limited array must be a fixed array to begin with: %s %s" % (node.name, patch_))
     mem.bound = len_array
+    mem.greedy = False
     mem.optional = False
     return node
 
